@@ -297,6 +297,19 @@ impl Ctx {
 
 use grin_keychain::Identifier;
 
+/// (file name, length, content) of every stored transaction under a wallet directory
+fn stored_files(wallet_dir: &str) -> Vec<(String, usize, Vec<u8>)> {
+	let mut v = vec![];
+	if let Ok(rd) = std::fs::read_dir(format!("{}/wallet_data/saved_txs", wallet_dir)) {
+		for e in rd.flatten() {
+			let b = std::fs::read(e.path()).unwrap_or_default();
+			v.push((e.file_name().to_string_lossy().to_string(), b.len(), b));
+		}
+	}
+	v.sort();
+	v
+}
+
 fn unspent_total(c: &Ctx, i: usize) -> u64 {
 	c.s.with(i, |b, _| {
 		b.iter()
@@ -420,7 +433,26 @@ fn enumerate(
 			st.mode = Mode::Off;
 		}
 		c.s.reopen(i);
-		let fails = c.recoverable(i, if cancel_restores { Some(pre_total) } else { None });
+		// an operation that reports success although one of its writes failed must have left what the
+		// complete run leaves: the same records and the same stored transactions
+		let mut claims = vec![];
+		if rc_f == vec![0] {
+			let got = c.snap(i);
+			if got["outputs"] != after["outputs"] || got["txs"] != after["txs"] || got["contexts"] != after["contexts"] {
+				claims.push("the operation reported success although a write failed, and the wallet is not in the state the complete operation leaves".to_owned());
+			}
+			let want_files = stored_files(&format!("{}/final", work));
+			let got_files = stored_files(&wdir);
+			if want_files != got_files {
+				claims.push(format!(
+					"the operation reported success although a write failed, and the stored transactions differ from those of the complete operation: {:?} instead of {:?}",
+					got_files.iter().map(|x| (x.0.clone(), x.1)).collect::<Vec<_>>(),
+					want_files.iter().map(|x| (x.0.clone(), x.1)).collect::<Vec<_>>()
+				));
+			}
+		}
+		let mut fails = c.recoverable(i, if cancel_restores { Some(pre_total) } else { None });
+		fails.extend(claims);
 		fault_results.push(json!({"k": k, "rc": rc_f, "fails": fails}));
 	}
 	// leave the wallet in the state after the complete operation
